@@ -314,7 +314,12 @@ class Interval(Duration, Generic[_T]):
         while not (_is_after(end, start) if inverted else _is_after(start, end)):
             yield start
 
-            start = getattr(self.start, method)(**{unit: i})
+            try:
+                start = getattr(self.start, method)(**{unit: i})
+            except (OverflowError, ValueError):
+                # The next step is not representable (outside years 1-9999),
+                # hence beyond the end
+                return
 
             i += amount
 
